@@ -205,6 +205,68 @@ def history_ops(rng, prefix, iid, cursor, keys, nops, stats, seps=()):
 # ---------------------------------------------------------------------------------------------
 # table family: writer + reader + iterators   (C01 C02 C03 C08 C09 C10)
 
+def gen_dump_opts(rng, keys, stats):
+    o = ""
+    if rng.chance(3, 4):
+        o += " x=1"
+    if rng.chance(1, 10):
+        o += " s=1"
+    nonempty = [k for k in keys if k]
+    if rng.chance(1, 2):
+        if nonempty and rng.chance(3, 4):
+            k = rng.pick(nonempty); p = k[:1 + rng.below(min(len(k), 3))]
+        else:
+            p = bytes(rng.pick(ALPHA) for _ in range(1 + rng.below(2)))
+        o += " k=" + p.hex(); stats.bump("dump_key_prefix")
+    if rng.chance(1, 4):
+        o += " v=" + bytes([rng.pick([0x41, 0x42, 0xa9, 0x00])]).hex(); stats.bump("dump_val_prefix")
+    if rng.chance(1, 3):
+        o += " K=%d" % rng.pick([1, 2, 3, 5, 129]); stats.bump("dump_key_min")
+    if rng.chance(1, 4):
+        o += " V=%d" % rng.pick([1, 2, 4, 64]); stats.bump("dump_val_min")
+    return o
+
+
+def py_print_string(b):
+    out = '"'
+    for c in b:
+        if 0x20 <= c <= 0x7e:
+            out += '\\"' if c == 0x22 else chr(c)
+        else:
+            out += "\\x%02x" % c
+    return out + '"'
+
+
+def py_hex_string(b):
+    return "%08x:" % len(b) + "-".join("%02x" % c for c in b)
+
+
+def py_dump(entries, kv):
+    if kv.get("s") == "1":
+        return b""
+    kp = bytes.fromhex(kv["k"]) if "k" in kv else None
+    vp = bytes.fromhex(kv["v"]) if "v" in kv else None
+    kmin = int(kv.get("K", "0")); vmin = int(kv.get("V", "0"))
+    fmt = py_hex_string if kv.get("x") == "1" else py_print_string
+    out = []
+    for k, v in entries:
+        if kp is not None and not k.startswith(kp):
+            continue
+        if vp is not None and not v.startswith(vp):
+            continue
+        if len(k) < kmin or len(v) < vmin:
+            continue
+        out.append(fmt(k) + " " + fmt(v) + "\n")
+    return "".join(out).encode("latin-1")
+
+
+def fnv1a64(b):
+    h = 0xcbf29ce484222325
+    for c in b:
+        h = ((h ^ c) * 0x100000001b3) & 0xffffffffffffffff
+    return h
+
+
 def gen_table_case(rng, stats, mode="mixed", comp=None, small=True, nkeys=None, pool=None):
     """returns script lines.  mode: 'sorted' (C01), 'unsorted' (C08), 'mixed'"""
     cfg, comp, bs, ri = gen_wcfg(rng, stats, comp=comp, small=small)
@@ -237,6 +299,12 @@ def gen_table_case(rng, stats, mode="mixed", comp=None, small=True, nkeys=None, 
     lines.append("@f w.fin 1")
     lines.append("f.validate %s file=$f" % " ".join(a for a in cfg.split(" ") if not a.startswith(("level=", "pool="))))
     lines.append("w.prefix 1")
+    # the tools built from the tree, on the finished file
+    prehex = dict(a.split("=", 1) for a in cfg.split(" ") if "=" in a).get("pre", "-")
+    lines.append("blob 9 %s$f" % ("" if prehex == "-" else prehex))
+    lines.append("tool.info 9")
+    for _ in range(rng.pick([1, 2])):
+        lines.append("tool.dump 9" + gen_dump_opts(rng, keys, stats))
     verify = rng.below(2)
     lines.append("r.openw 2 1 verify=%d madv=%d" % (verify, rng.below(2)))
     # full iteration
@@ -277,7 +345,7 @@ def oracle_table(res, stats=None):
         if real.startswith("crash"):
             fails.append(("*", "process died: " + real, i)); break
         if op == "reset":
-            writers, readers, iters = {}, {}, {}
+            writers, readers, iters, blobs = {}, {}, {}, {}
         elif op == "w.new":
             kvs = dict(a.split("=", 1) for a in t[3:] if "=" in a) if len(t) > 3 else {}
             kvs = dict(a.split("=", 1) for a in t[2:] if "=" in a)
@@ -331,6 +399,37 @@ def oracle_table(res, stats=None):
                 minbs = int(w["kv"].get("minbs", "1024")); bs = int(w["kv"].get("bs", "8192"))
                 if int(f[3]) != max(bs, minbs):
                     fails.append(("C10", "block size field %s" % f[3], i))
+        elif op == "blob":
+            blobs[t[1]] = next(iter(writers)) if writers else None      # the blob is the file of the (only) writer
+        elif op == "tool.dump":
+            w = writers.get(blobs.get(t[1]) or "", None)
+            if w is None:
+                continue
+            kvs = dict(a.split("=", 1) for a in t[2:] if "=" in a)
+            want = py_dump(w["acc"], kvs)
+            f = dict(x.split("=", 1) for x in real.split(" ")[1:] if "=" in x)
+            if f.get("exit") != "0":
+                fails.append(("C01", "mtbl_dump %s ended with %s" % (" ".join(t[2:]), real[:80]), i)); continue
+            got = f.get("out", "")
+            ok = (got == "#%d" % fnv1a64(want)) if got.startswith("#") else (unhx(got) == want)
+            if not ok or int(f.get("n", "-1")) != want.count(b"\n"):
+                fails.append(("C01", "mtbl_dump %s printed %s lines, not the matching subsequence of what was added (%d lines expected)" % (" ".join(t[2:]), f.get("n"), want.count(b"\n")), i))
+        elif op == "tool.info":
+            w = writers.get(blobs.get(t[1]) or "", None)
+            if w is None or "file" not in w:
+                continue
+            f = dict(x.split("=", 1) for x in real.split(" ")[1:] if "=" in x)
+            acc = w["acc"]; fl = w["file"]; pre = len(unhx(w["kv"].get("pre", "-")))
+            lay = walk_layout(fl, pre)
+            if f.get("exit") != "0" or lay is None:
+                fails.append(("C10", "mtbl_info ended with %s" % real[:100], i)); continue
+            nblocks, bytes_data, io, bytes_index = lay
+            names = ["none", "snappy", "zlib", "lz4", "lz4hc", "zstd"]
+            want = {"size": pre + len(fl), "ibo": io, "ib": bytes_index, "db": bytes_data, "bs": max(int(w["kv"].get("bs", "8192")), int(w["kv"].get("minbs", "1024"))),
+                    "dbc": nblocks, "ec": len(acc), "kb": sum(len(k) for k, _ in acc), "vb": sum(len(v) for _, v in acc)}
+            got = {k: (int(f[k]) if f.get(k, "?").isdigit() else None) for k in want}
+            if got != want or f.get("algo") != names[int(w["kv"].get("comp", "0"))]:
+                fails.append(("C10", "mtbl_info prints %s algo=%s, the file's actual properties are %s algo=%s" % (got, f.get("algo"), want, names[int(w["kv"].get("comp", "0"))]), i))
         elif op == "r.it":
             if t[1] not in readers:
                 continue
